@@ -69,6 +69,8 @@ var c20Templates = []struct{ name, code string }{
 	{"str-index", "r = (\"abc\"[%s]) ?? \"E\""}, {"str-slice", "r = (\"abcd\"[%s:3]) ?? \"E\""}, {"lit-key", "r = \"ok\"; try { r = {%s: 1} } catch e { r = \"E\" }"},
 	{"slice-hi", "r = ([7, 8, 9][0:%s]) ?? \"E\""}, {"slice-cap", "r = ([7, 8, 9][0:1:%s]) ?? \"E\""},
 	{"delete-key", "t = {5: 1, \"ab\": 2}; r = \"ok\"; try { delete(t, %s); r = t } catch e { r = \"E\" }"},
+	{"in-self", "r = (%s in [v]) ?? \"E\""}, {"in-self-r", "r = (v in [%s]) ?? \"E\""}, {"switch-self", "r = 0; switch %s {\ncase v: r = 1\ndefault: r = 9\n}"},
+	{"case-self", "r = 0; switch v {\ncase %s: r = 1\ndefault: r = 9\n}"}, {"in-self-wrapped", "r = (%s in [[v][0]]) ?? \"E\""},
 	{"eq-self", "r = (%s == v) ?? \"E\""}, {"neq-self", "r = (v != %s) ?? \"E\""}, {"deref", "r = \"ok\"; try { r = *%s } catch e { r = \"E\" }"}, {"tostr", "r = (\"\" + %s) ?? \"E\""}, {"keys-like", "r = []; try { for k, v in %s { r += v } } catch e { r = \"E\" }"},
 }
 
